@@ -17,8 +17,8 @@ PY = sys.executable
 
 TIERS = {
     # tier -> (wall budget seconds for the search, hash seeds, max violations to minimise)
-    "quick": {"budget": 55, "hashseeds": [0], "max_min": 3, "chunk": 40},
-    "thorough": {"budget": 1200, "hashseeds": [0, 1, 2], "max_min": 6, "chunk": 100},
+    "quick": {"budget": 50, "hashseeds": [0], "max_min": 3, "chunk": 12},
+    "thorough": {"budget": 1200, "hashseeds": [0, 1, 2], "max_min": 6, "chunk": 24},
 }
 BOOTS = ["shipped", "absent", "seeded-1", "seeded-2"]
 
@@ -54,7 +54,7 @@ def worker_chunk(args):
            "probes": {}, "violations": [], "harness_errors": [], "states": set(), "interleavings": set(),
            "nontrivial": set(), "samples": [], "other_props": {}, "fault_free_runs": 0, "wall": 0.0,
            "digests": [], "ops_kinds": {}, "sinkfail_points": 0, "ambiguous_points": 0, "acq_out_of_scope": 0,
-           "mutations": 0, "observers": 0, "faults": 0, "model_errors": 0}
+           "mutations": 0, "observers": 0, "faults": 0, "model_errors": 0, "known": {}, "known_samples": {}}
     t0 = time.time()
     for idx in indices:
         seed = run_seed(master, idx)
@@ -70,6 +70,8 @@ def worker_chunk(args):
             continue
         st = r["stats"]
         agg["runs"] += 1
+        if st.get("wall", 0) > agg.get("slowest", (0, 0))[0]:
+            agg["slowest"] = (round(st["wall"], 2), idx)
         agg["steps"] += st["steps"]
         agg["points"] += st.get("points", 0)
         agg["timed_points"] += st.get("timed_points", 0)
@@ -113,7 +115,17 @@ def worker_chunk(args):
         agg["digests"].append([idx, r["digest"]])
         if want_samples and len(agg["samples"]) < 1:
             agg["samples"].append({"run_index": idx, "seed": seed, "boot": boot_id, "steps": desc["steps"]})
-        mine = [f for f in r["findings"] if prop in f["props"]]
+        mine = []
+        for f in r["findings"]:
+            if prop not in f["props"]:
+                continue
+            if engine.is_known(f):
+                kid = engine.known_diags()[(prop, f["detail"]["diag"])]["id"]
+                agg["known"][kid] = agg["known"].get(kid, 0) + 1
+                if kid not in agg["known_samples"]:
+                    agg["known_samples"][kid] = {"desc": desc, "finding": f}
+            else:
+                mine.append(f)
         for f in r["findings"]:
             if prop not in f["props"]:
                 for p in f["props"]:
@@ -136,19 +148,20 @@ def worker_minimise(args):
     _ensure_world(desc["boot"])
     from sim import engine, shrink
     oracle = finding["oracle"]
+    diag = finding.get("detail", {}).get("diag")
 
     def predicate(d, point):
         try:
             r = engine.run_descriptor(d)
         except Exception:
             return False
-        return any(prop in f["props"] and f["oracle"] == oracle for f in r["findings"])
+        return any(prop in f["props"] and f["oracle"] == oracle and f.get("detail", {}).get("diag") == diag for f in r["findings"])
 
     point = finding.get("point", len(desc["steps"]) - 1)
     point = min(point, len(desc["steps"]) - 1)
     md, mpoint, evals = shrink.minimise(desc, point, predicate, budget=budget)
     r = engine.run_descriptor(md)
-    fs = [f for f in r["findings"] if prop in f["props"] and f["oracle"] == oracle]
+    fs = [f for f in r["findings"] if prop in f["props"] and f["oracle"] == oracle and f.get("detail", {}).get("diag") == diag]
     return {"desc": md, "finding": fs[0] if fs else None, "evals": evals, "all_findings": [f for f in r["findings"] if prop in f["props"]]}
 
 
@@ -198,7 +211,7 @@ def search(prop, profile, tier, master, jobs, budget=None, boots=None, log=print
              "nontrivial": set(), "samples": [], "other_props": {}, "fault_free_runs": 0, "cpu": 0.0,
              "ops_kinds": {}, "more_violations": 0, "sinkfail_points": 0, "ambiguous_points": 0,
              "acq_out_of_scope": 0, "mutations": 0, "observers": 0, "faults": 0, "model_errors": 0,
-             "per_world": {}}
+             "per_world": {}, "known": {}, "known_samples": {}}
     next_index = 0
     chunk = cfg["chunk"]
     # one pool per (hash seed); every worker process serves exactly one boot configuration
@@ -212,8 +225,14 @@ def search(prop, profile, tier, master, jobs, budget=None, boots=None, log=print
         pending = {}
         def submit(g):
             nonlocal next_index
-            idxs = list(range(next_index, next_index + chunk))
-            next_index += chunk
+            # chunk size adapts to the measured throughput of this world: about 2.5 s of work per chunk
+            rate = g.get("rate")
+            n = chunk if rate is None else max(4, min(chunk * 4, int(rate * 2.5)))
+            remaining = deadline - time.time()
+            if rate is not None and remaining > 0:
+                n = max(2, min(n, int(rate * remaining * 0.8) or 2))
+            idxs = list(range(next_index, next_index + n))
+            next_index += n
             want = len(total["samples"]) + len(pending) < 3
             f = g["pool"].submit(worker_chunk, (prop, profile, g["boot"], master, idxs, want))
             pending[f] = g
@@ -231,6 +250,11 @@ def search(prop, profile, tier, master, jobs, budget=None, boots=None, log=print
                     total["harness_errors"].append({"exc": type(e).__name__, "msg": str(e)[:300], "world": g["boot"]})
                     continue
                 _merge(total, agg, g)
+                if os.environ.get("QCOSIM_DEBUG"):
+                    log(f"[{time.time() - t0:6.1f}s] chunk {g['boot']}/hs{g['hs']} runs={agg['runs']} wall={agg['wall']:.1f}s slowest={agg.get('slowest')}")
+                if agg["wall"] > 0 and agg["runs"] > 0:
+                    r = agg["runs"] / agg["wall"]
+                    g["rate"] = r if g.get("rate") is None else 0.5 * g["rate"] + 0.5 * r
                 if len(total["violations"]) >= 12:
                     stop_for_violations = True
                 if time.time() < deadline and not stop_for_violations and not total["harness_errors"]:
@@ -251,7 +275,9 @@ def _merge(total, agg, g):
         total[k] += agg.get(k, 0)
     total["cpu"] += agg["wall"]
     total["more_violations"] += agg.get("more_violations", 0)
-    for k in ("fired", "probes", "other_props", "ops_kinds"):
+    for a, b in agg.get("known_samples", {}).items():
+        total["known_samples"].setdefault(a, b)
+    for k in ("fired", "probes", "other_props", "ops_kinds", "known"):
         for a, b in agg[k].items():
             total[k][a] = total[k].get(a, 0) + b
     for k in ("states", "interleavings", "nontrivial"):
